@@ -231,6 +231,8 @@ class Contract:
         return out
 
     # ---- use at a call site (modular reasoning: the caller sees only this contract)
+    pure_of_scalar_arguments = True     # set False on a contract whose function reads state not among its arguments
+
     def apply_at_call(self, ex: Executor, st: State, args, kwargs, node):
         ctx = ex.ctx
         fnode, module = self.load(ctx)
@@ -264,18 +266,33 @@ class Contract:
                 from .loops import havoc_like
                 st.heap[(id(ref.obj), attr)] = havoc_like(ex, st, cur, f"{short}.{ref.path}.{attr}")
         rspec = self.result_at_call(env) if hasattr(self, "result_at_call") else self.result
-        res = make_value(ex, st, rspec, fresh_name(f"{short}.result"), register_input=False) \
-            if rspec is not None else None
+        memo_key = _rel_memo_key(self, env, mods) if _REL_MEMO is not None else None
+        if memo_key is not None and memo_key in _REL_MEMO:
+            # self-composition: a callee that is a function of scalar arguments only returns the same value for the
+            # same arguments in both runs (determinism of pure callees, stated in the relational units' assumptions)
+            res = _REL_MEMO[memo_key]
+        else:
+            res = make_value(ex, st, rspec, fresh_name(f"{short}.result"), register_input=False) \
+                if rspec is not None else None
+            if memo_key is not None and _scalar_result(res):
+                _REL_MEMO[memo_key] = res
         with spec_context(ex, st):
             ns = NS(st, env, old=NS(pre_state, env))
             ens = normalise_clauses(ex, st, self.ensures(ns, _wrap_result(res, st)))
         for cname, cond in ens.items():
             st.assume(cond)
         outs = [Outcome("return", st, res)]
-        for etype in getattr(self, "raises_at_call", ()) or ():
-            # the callee may also leave exceptionally: same frame effects, no result
-            s2 = st.fork()
-            outs.append(Outcome("raise", s2, ExcVal(etype, ("<raised by callee>",))))
+        etypes = list(getattr(self, "raises_at_call", ()) or ())
+        if etypes:
+            # the callee may also leave exceptionally: same frame effects, no result.  The nondeterministic choice of
+            # exit is a branch decision on a fresh constant, so that a later merge of these paths keeps them apart
+            # (states forked without a distinguishing decision would be joined under the guard `true`)
+            choice = z3.Int(fresh_name(f"{short}.exit_choice"))
+            forks = [st.fork() for _ in etypes]
+            st.decide(choice == 0)
+            for j, (etype, s2) in enumerate(zip(etypes, forks), start=1):
+                s2.decide(choice == j)
+                outs.append(Outcome("raise", s2, ExcVal(etype, ("<raised by callee>",))))
         return outs
 
     def load(self, ctx: Ctx):
@@ -424,11 +441,56 @@ def _one_run(c, cfg_label, cfg, repo_src, registry, snapshot_root, prefix):
     return ctx, ex, entry_env, entry_state, rets, module
 
 
+_REL_MEMO = None     # (contract key, argument terms) -> result value, shared by the two runs of a self-composition
+
+
+def _scalar_result(res):
+    import numbers
+    if isinstance(res, tuple):
+        return all(_scalar_result(x) for x in res)
+    return res is None or is_sym(res) or isinstance(res, numbers.Number)
+
+
+def _rel_memo_key(c, env, mods):
+    """key for the cross-run memo, or None when the callee is not a function of scalar arguments only"""
+    import enum
+    import numbers
+    if mods or not getattr(c, "pure_of_scalar_arguments", True) or getattr(c, "raises_at_call", None):
+        return None
+    if hasattr(c, "heap") and type(c).heap is not Contract.heap:
+        return None
+    parts = [c.key, getattr(c, "label", None)]
+    for k, v in env.items():
+        if k.startswith("$"):
+            continue
+        spec = c.params.get(k)
+        if spec is not None and not isinstance(spec, tuple) and getattr(spec, "kind", None) in ("obj",):
+            return None
+        if spec is not None and not isinstance(spec, tuple) and getattr(spec, "kind", None) == "const":
+            continue        # stub / logger-only arguments
+        if is_sym(v):
+            parts.append((k, v.sexpr()))
+        elif v is None or isinstance(v, (numbers.Number, str, enum.Enum, bool)):
+            parts.append((k, repr(v)))
+        else:
+            return None
+    return tuple(parts)
+
+
 def verify_relational(c, cfg_label, cfg, repo_src, registry=None, snapshot_root=None) -> RunResult:
+    global _REL_MEMO
     registry = registry if registry is not None else REGISTRY
     rr = RunResult()
     rr.contract = c
     rr.config = (cfg_label, cfg)
+    _REL_MEMO = {}
+    try:
+        return _verify_relational(c, cfg_label, cfg, repo_src, registry, snapshot_root, rr)
+    finally:
+        _REL_MEMO = None
+
+
+def _verify_relational(c, cfg_label, cfg, repo_src, registry, snapshot_root, rr):
     try:
         ctx1, ex1, env1, entry1, rets1, module = _one_run(c, cfg_label, cfg, repo_src, registry, snapshot_root, "")
         ctx2, ex2, env2, entry2, rets2, _ = _one_run(c, cfg_label, cfg, repo_src, registry, snapshot_root, "r2:")
